@@ -390,6 +390,28 @@ theorem C13_b4_ok :
   ⟨checkProgram_sound (by decide +kernel) [], checkProgram_sound (by decide +kernel) [],
    checkProgram_sound (by decide +kernel) []⟩
 
+/-! ### batch 8: symbols, expressions and labels inside FCB / FDB lists (`fixAllL`, `evalLists`)
+
+`back_ne_internal` was re-proved on the model: the pass over the lists (`evalLists`) resolves an element against the
+symbol table and looks a label up in the statements after `fix_addresses`; every label of the table points at an existing
+statement whose address is a 16-bit number (`fixAllL_ne_internal`, Lemmas/EvalListsNoInt.lean), so the pass ends in a
+list of statements or in a diagnostic.  `assemble_internal_iff_expand` is unchanged. -/
+
+/-- **list elements that cannot be evaluated end in a diagnostic**: an undefined symbol, a division by zero, a label whose
+address does not fit the byte of an FCB -/
+theorem C13_b8_list_diag (fs : Files) :
+    assemble fs (prog [" FCB 1,UNDEF\n"]) = .diag ∧
+    assemble fs (prog [" FDB 5/Z,1\n", "Z EQU 0\n"]) = .diag ∧
+    assemble fs (prog [" ORG $100\n", "L NOP\n", " FCB 1,L\n"]) = .diag :=
+  ⟨diagProgram_sound (by decide +kernel) fs, diagProgram_sound (by decide +kernel) fs,
+   diagProgram_sound (by decide +kernel) fs⟩
+
+/-- **a jump table**: `T FDB L1,L2` with the labels defined after it assembles, each element the address of its label -/
+theorem C13_b8_list_ok :
+    ∃ a, assemble [] (prog ["T FDB L1,L2\n", "L1 NOP\n", "L2 RTS\n"]) = .ok a ∧
+      imagesAre [some [0x00, 0x04, 0x00, 0x05], some [0x12], some [0x39]] a = true :=
+  checkProgram_sound (by decide +kernel) []
+
 /-- What was proved of C13 before batch 6 (kept; `C13_full` is the full statement).  (1)-(4): the PCR loop and the
 whole assembly never run out of fuel, and parsing fails only with a diagnostic.  (5): an internal error comes from the
 nesting budget of INCLUDE and from nothing else (and that budget is never exhausted: `expand_never_internal`, so both
